@@ -651,3 +651,49 @@ def fold_strings(ctx: Ctx, e, fi, depth=0):
             v = m2.consts.get(r[2])
             return fold_strings(ctx, v, m2, depth + 1) if v is not None else None
     return None
+
+
+def enum_lookup(ctx: Ctx, e, fi, depth=0):
+    """(enum name, 'Name' | 'Value', argument expression) when `e` converts between the names and numbers of a protobuf
+    enum: `E.Name(x)` / `E.Value(x)`, a lookup `T[x]` / `T.get(x)` in a module-level table built from `E.items()`
+    (`dict(E.items())` = by name; `{number: name for name, number in E.items()}` = by number), or a small helper of the
+    repository that answers with such a lookup of its parameter. None otherwise."""
+    t, p = ctx.types, ctx.prog
+    if depth > 3 or e is None:
+        return None
+    if isinstance(e, ast.Call) and isinstance(e.func, ast.Attribute) and e.func.attr in ("Name", "Value") and len(e.args) == 1:
+        return (norm(e.func.value).rsplit(".", 1)[-1], e.func.attr, e.args[0])
+    table = key = None
+    if isinstance(e, ast.Subscript) and isinstance(e.value, ast.Name):
+        table, key = e.value, e.slice
+    elif isinstance(e, ast.Call) and isinstance(e.func, ast.Attribute) and e.func.attr == "get" and isinstance(e.func.value, ast.Name) and len(e.args) == 1:
+        table, key = e.func.value, e.args[0]
+    if table is not None and not (hasattr(fi, "module") and t.local_bindings(fi, table.id)):
+        mod = fi.module if hasattr(fi, "module") else fi
+        r = p.resolve_name_in_module(mod, table.id)
+        if r and r[0] == "const":
+            v = r[1].consts.get(r[2])
+            items = None
+            if isinstance(v, ast.Call) and norm(v.func) == "dict" and len(v.args) == 1:
+                items, direction = v.args[0], "Value"
+            elif isinstance(v, ast.DictComp) and len(v.generators) == 1 and isinstance(v.generators[0].target, ast.Tuple) and len(v.generators[0].target.elts) == 2 \
+                    and not v.generators[0].ifs:
+                a_, b_ = [norm(x) for x in v.generators[0].target.elts]
+                k_, val_ = norm(v.key), norm(v.value)
+                items = v.generators[0].iter
+                direction = "Value" if (k_, val_) == (a_, b_) else "Name" if (k_, val_) == (b_, a_) else None
+                if direction is None:
+                    return None
+            if items is not None and isinstance(items, ast.Call) and isinstance(items.func, ast.Attribute) and items.func.attr == "items" and not items.args:
+                return (norm(items.func.value).rsplit(".", 1)[-1], direction, key)
+        return None
+    if isinstance(e, ast.Call):
+        tg = t.resolve_call(e, fi) if hasattr(fi, "module") else None
+        if tg is not None and len(tg.repo) == 1 and not tg.ext:
+            g = tg.repo[0]
+            b = t.bind_args(g, e)
+            rets = [r for r in t.nodes_in(g, ast.Return) if r.value is not None]
+            found = [enum_lookup(ctx, r.value, g, depth + 1) for r in rets]
+            if rets and all(found) and len({(f[0], f[1]) for f in found}) == 1 and all(isinstance(f[2], ast.Name) and f[2].id in b for f in found):
+                return (found[0][0], found[0][1], b[found[0][2].id])
+    return None
